@@ -67,6 +67,8 @@ Definition pkg_of_arg (a : arg) : pkg :=
 
 Definition run_C19 (op : bytes) (input : arg) : arg :=
   if bytes_eqb op (bs "encode") then AB (encode (pkg_of_arg (arg_nth 0 input)))
+  else if bytes_eqb op (bs "wf") then ok_arg (pkg_ok (pkg_of_arg (arg_nth 0 input)))
+  else if bytes_eqb op (bs "report") then AL [AZ 0; arg_of_info (report (pkg_of_arg (arg_nth 0 input)))]
   else if bytes_eqb op (bs "lib") then
     obs_result arg_of_pkgfile (read_package_file (arg_bytes (arg_nth 0 input)))
   else if bytes_eqb op (bs "sig") then
@@ -185,7 +187,7 @@ Definition check_C19 (op : bytes) (input impl : arg) : arg :=
     (* C08's bound, checked here because the index entries are C19's malformed stream:
        memory allocated while describing the file stays within 1 MiB + 256 x file size *)
     if is_outcome impl 2 then AS "RPMFile panicked"
-    else if (Z.of_N (1048576 + 256 * N.of_nat (length (arg_bytes (arg_nth 0 input)))) <? arg_Z (arg_nth 1 impl))%Z
+    else if (Z.of_N (1048576 + 256 * N.of_nat (length (arg_bytes (arg_nth 0 input)))) <? 1048576 * arg_Z (arg_nth 1 impl))%Z
     then AS "allocation sized by an index entry's count field, not bounded by the file size"
     else AL []
   else if bytes_eqb op (bs "isolated") then
